@@ -58,7 +58,8 @@ Oracle = monitors on the virtual-time trace, phrased from the statement (nothing
   M2 slow poll ("every polled parameter is refreshed no later than a bounded multiple of the slow interval"): for
      consecutive reads r, r' of a polled parameter (end of run counts as r') the time the thread was idle (not inside a
      driver call) between r and r' is <= 2 x slowinterval (+EPS); and (b, no starvation under load) once the parameter is
-     overdue by 2 x slowinterval, no other polled parameter is read more than twice before it is read.
+     overdue by 2 x slowinterval (counted from the completion of its previous read), no other polled parameter is read
+     more than twice before it is read.
   M3 a read function marked @nopoll (plain or handler) is never called during the run.
   M4 the thread body ends only by the horizon: an exception leaving the body, or a return, is "the thread stopped".
      Delays of other modules by failing/slow functions are judged by M1/M2 on every module.
@@ -709,12 +710,13 @@ def judge(world, run):
 
     for name, cname, _, si in world.polled:
         for label, fns in REFRESH[cname].items():
-            last = None
+            last = last_end = None
             reads = [r for r in trace if r[0] == 'started' or (r[0] == 'call' and r[1] == name and r[2] in fns)]
             for r in reads + [('end', t_end)]:
                 t = r[1] if r[0] in ('started', 'end') else r[3]
                 if r[0] == 'started':
-                    last = t if last is None else last
+                    if last is None:
+                        last = last_end = t
                     continue
                 if last is not None and t - last > 2 * si:
                     what = (f'{name}.{label}: read at t={rel(run, last)} and '
@@ -724,14 +726,15 @@ def judge(world, run):
                         res.append((f'C13:slow-poll:not-refreshed-within-2-slowintervals:{FNKIND[fns[0]]}',
                                     f'{what}; the thread was idle for {idle:.4g}s in between (slowinterval {si:g})'))
                         break
-                    more = starved(name, label, last + 2 * si, t)
+                    # (b) counts from the *completion* of the previous read (that is when the value was refreshed)
+                    more = starved(name, label, last_end + 2 * si, t)
                     if more:
                         res.append((f'C13:slow-poll:starved-while-overdue:{FNKIND[fns[0]]}',
                                     f'{what} (slowinterval {si:g}); after it was overdue by 2 x slowinterval '
                                     + ', '.join(f'{m}.{lb} was read {n} times' for m, lb, n in more)))
                         break
                 if r[0] == 'call':
-                    last = t
+                    last, last_end = t, r[4]
     return res
 
 
